@@ -99,6 +99,10 @@ def lost_classes(exp: T.Sequence[str], obs: T.Sequence[str]) -> str:
     o = obs[k] if k < len(obs) else ''
     if k >= len(exp):
         return 'extra-arg'
+    if len(obs) < len(exp) and list(obs[k:k + 2]) == list(exp[k + 1:k + 3]):
+        # the argument exp[k] vanished as a whole
+        cd = gen.classes_of(exp[k]) - {'long'}
+        return 'dropped-' + '+'.join(sorted(cd)[:3] or ['plain'])
     ce = gen.classes_of(e) | (gen.classes_of(o) if o else set())
     ce.discard('empty')
     if e == '':
@@ -308,6 +312,7 @@ def _run_project(plan: dict, root: str, pdir: str, out: Outcome) -> None:
         return
     build_records = read_log(log)
     failed_edges = {tuple(ev['outputs']): ev for ev in ex.events if ev['rc'] != 0}
+    started = set(ex.order)
     os.truncate(log, 0)
 
     # ---- 4. tests through the real `meson test`
@@ -360,6 +365,10 @@ def _run_project(plan: dict, root: str, pdir: str, out: Outcome) -> None:
             out.count('monitor:test_argv_compared')
         out.cases.append(common.digest([pos, mode, exp['runs'], exp['env']]))
         locus = {'id': ident, 'pos': pos, 'kind': kind, 'mode': mode, 'rsp_project': plan['rsp']}
+        if not got and exp.get('out') and exp['out'] in by_out and by_out[exp['out']].idx not in started:
+            # never started because an edge it depends on failed: that failure is reported at its own position
+            out.count('blocked_by_failed_dependency')
+            continue
         if len(got) != 1:
             ev = failed_edges.get(tuple(by_out[exp['out']].outputs)) if exp.get('out') and exp['out'] in by_out else None
             detail = dict(locus, expected_argv=exp['runs'][0], n_records=len(got), command=cmdline[:2000],
@@ -439,6 +448,9 @@ def _run_project(plan: dict, root: str, pdir: str, out: Outcome) -> None:
             locus = {'pos': sl['pos'], 'kind': kind, 'mode': mode, 'target': target, 'edge_out': outname}
             if ent is None:
                 e = by_out.get(outname)
+                if e is not None and e.idx not in started:
+                    out.count('blocked_by_failed_dependency')
+                    continue
                 ev = failed_edges.get(tuple(e.outputs)) if e is not None else None
                 _violate(out, plan, mechanism(kind, mode, 'not-executed', sl['args'], []),
                          dict(locus, expected=sl['args'][:4], edge_rc=(ev or {}).get('rc'),
@@ -468,6 +480,13 @@ def _run_project(plan: dict, root: str, pdir: str, out: Outcome) -> None:
     for target, slots in plan['link'].items():
         check_slots('link', target, target, slots)
 
+    # every edge must have run successfully: a failure nobody above accounted for is still a command that did not
+    # receive what the build definition specified (e.g. the shell refused the line)
+    if failed_edges and not out.violations:
+        ev = next(iter(failed_edges.values()))
+        _violate(out, plan, 'edge-failed:' + str(ev.get('rule')), {'outputs': ev.get('outputs'), 'rc': ev.get('rc'),
+                                                                 'command': str(ev.get('command'))[:1500]})
+    out.count('monitor:edges_run', len(ex.events))
     # a monitor failure without an execution-level difference is still a loss inside a layer
     for oname, bad in elem_fail.items():
         _violate(out, plan, 'elem-roundtrip:%s:%s' % (bad['via'], bad['cls']), {'edge_out': oname, 'detail': bad})
@@ -618,7 +637,7 @@ def directed(chk: common.Check, root: str) -> None:
 
 # ------------------------------------------------------------------------------------------- driver
 REJECT_POS = ['targs_exe', 'proj_args', 'glob_args', 'opt_c_args', 'link_args', 'proj_link_args', 'opt_c_link_args',
-              'ct_env.env', 'rt_env.env', 'gen_env.env', 'targs_lib', 'glob_link_args']
+              'ct_env.env', 'rt_env.env', 'gen_env.env', 'targs_lib', 'glob_link_args', 'dep_cargs', 'dep_largs']
 
 
 def make_fakebin(root: str) -> None:
